@@ -1,0 +1,212 @@
+//! Verification hooks.
+//!
+//! This module only exists when the crate is compiled with
+//! `--cfg similar_verif`.  It is not part of the public API of the crate
+//! and nothing in here changes behaviour unless a harness explicitly
+//! installs a clock or flips a switch on the current thread.  All state is
+//! thread-local so that the hooks cannot introduce races themselves.
+#![allow(missing_docs)]
+
+use std::cell::{Cell, RefCell};
+
+/// The virtual clock consulted by `deadline_exceeded`.
+#[derive(Debug, Clone, Copy, PartialEq, Eq)]
+pub enum Clock {
+    /// No virtual clock: the real `Instant::now()` is used.
+    Off,
+    /// The i-th (0-based) deadline-carrying probe reports "expired" iff
+    /// `i >= fuel`.
+    Fuel(u64),
+    /// A probe reports "expired" iff the virtual time of this thread (see
+    /// [`advance`]) is `>= limit`.
+    Time(u64),
+}
+
+thread_local! {
+    static CLOCK: Cell<Clock> = Cell::new(Clock::Off);
+    static PROBES_DEADLINE: Cell<u64> = Cell::new(0);
+    static PROBES_NO_DEADLINE: Cell<u64> = Cell::new(0);
+    static NOW: Cell<u64> = Cell::new(0);
+    static FIRST_EXPIRED: Cell<Option<(u64, u64)>> = Cell::new(None);
+    static PROBE_TIMES: RefCell<Option<Vec<u64>>> = RefCell::new(None);
+    static SWAPS: Cell<u64> = Cell::new(0);
+    static SWAP_REPAIR: Cell<bool> = Cell::new(false);
+    static UNIQUE_ORDERS: RefCell<Option<Vec<(u64, bool)>>> = RefCell::new(None);
+}
+
+/// Installs a clock on this thread and resets all probe counters and the
+/// virtual time.
+pub fn set_clock(clock: Clock) {
+    CLOCK.with(|c| c.set(clock));
+    PROBES_DEADLINE.with(|c| c.set(0));
+    PROBES_NO_DEADLINE.with(|c| c.set(0));
+    NOW.with(|c| c.set(0));
+    FIRST_EXPIRED.with(|c| c.set(None));
+    PROBE_TIMES.with(|c| {
+        if let Some(v) = c.borrow_mut().as_mut() {
+            v.clear();
+        }
+    });
+}
+
+/// Enables or disables recording of the virtual time of every
+/// deadline-carrying probe.
+pub fn record_probe_times(on: bool) {
+    PROBE_TIMES.with(|c| *c.borrow_mut() = if on { Some(Vec::new()) } else { None });
+}
+
+/// Returns the virtual times recorded for the deadline-carrying probes since
+/// the clock was set.
+pub fn probe_times() -> Vec<u64> {
+    PROBE_TIMES.with(|c| c.borrow().clone().unwrap_or_default())
+}
+
+/// `(probes that carried a deadline, probes without one)` since the clock
+/// was last set.
+pub fn probes() -> (u64, u64) {
+    (
+        PROBES_DEADLINE.with(|c| c.get()),
+        PROBES_NO_DEADLINE.with(|c| c.get()),
+    )
+}
+
+/// `(probe index, virtual time)` of the first probe that reported "expired".
+pub fn first_expired() -> Option<(u64, u64)> {
+    FIRST_EXPIRED.with(|c| c.get())
+}
+
+/// Advances the virtual time of this thread.
+#[inline]
+pub fn advance(by: u64) {
+    NOW.with(|c| c.set(c.get() + by));
+}
+
+/// Current virtual time of this thread.
+pub fn now() -> u64 {
+    NOW.with(|c| c.get())
+}
+
+/// Called by `deadline_exceeded`.  `None` means "use the real clock".
+pub(crate) fn probe(has_deadline: bool) -> Option<bool> {
+    if !has_deadline {
+        PROBES_NO_DEADLINE.with(|c| c.set(c.get() + 1));
+        return None;
+    }
+    let idx = PROBES_DEADLINE.with(|c| {
+        let idx = c.get();
+        c.set(idx + 1);
+        idx
+    });
+    let now = now();
+    PROBE_TIMES.with(|c| {
+        if let Some(v) = c.borrow_mut().as_mut() {
+            v.push(now);
+        }
+    });
+    let rv = match CLOCK.with(|c| c.get()) {
+        Clock::Off => return None,
+        Clock::Fuel(fuel) => idx >= fuel,
+        Clock::Time(limit) => now >= limit,
+    };
+    if rv && FIRST_EXPIRED.with(|c| c.get()).is_none() {
+        FIRST_EXPIRED.with(|c| c.set(Some((idx, now))));
+    }
+    Some(rv)
+}
+
+/// Number of Delete/Insert swaps performed by the compaction on this thread.
+pub fn swaps() -> u64 {
+    SWAPS.with(|c| c.get())
+}
+
+/// Switches the repair of carried indices after a swap on or off.  Used for
+/// attribution only, never for verdicts.
+pub fn set_swap_repair(on: bool) {
+    SWAP_REPAIR.with(|c| c.set(on));
+}
+
+/// Called by the compaction after `ops[first]` and `ops[first + 1]` were
+/// swapped.
+pub(crate) fn on_swap(ops: &mut [crate::DiffOp], first: usize) {
+    use crate::DiffOp;
+    SWAPS.with(|c| c.set(c.get() + 1));
+    if !SWAP_REPAIR.with(|c| c.get()) {
+        return;
+    }
+    match (ops[first], ops[first + 1]) {
+        (
+            DiffOp::Delete {
+                old_index, old_len, ..
+            },
+            DiffOp::Insert {
+                new_index, new_len, ..
+            },
+        ) => {
+            ops[first] = DiffOp::Delete {
+                old_index,
+                old_len,
+                new_index,
+            };
+            ops[first + 1] = DiffOp::Insert {
+                old_index: old_index + old_len,
+                new_index,
+                new_len,
+            };
+        }
+        (
+            DiffOp::Insert {
+                new_index, new_len, ..
+            },
+            DiffOp::Delete {
+                old_index, old_len, ..
+            },
+        ) => {
+            ops[first] = DiffOp::Insert {
+                old_index,
+                new_index,
+                new_len,
+            };
+            ops[first + 1] = DiffOp::Delete {
+                old_index,
+                old_len,
+                new_index: new_index + new_len,
+            };
+        }
+        _ => {}
+    }
+}
+
+/// Enables or disables recording of the pre-sort order seen by `unique()`.
+pub fn record_unique_orders(on: bool) {
+    UNIQUE_ORDERS.with(|c| *c.borrow_mut() = if on { Some(Vec::new()) } else { None });
+}
+
+/// Takes the `(digest of the pre-sort index order, was already sorted)`
+/// records of all `unique()` calls since the last take.
+pub fn take_unique_orders() -> Vec<(u64, bool)> {
+    UNIQUE_ORDERS.with(|c| match c.borrow_mut().as_mut() {
+        Some(v) => std::mem::take(v),
+        None => Vec::new(),
+    })
+}
+
+/// Called by `unique()` with the indexes in hash-map iteration order.
+pub(crate) fn on_unique_presort(indexes: impl Iterator<Item = usize>) {
+    UNIQUE_ORDERS.with(|c| {
+        if let Some(v) = c.borrow_mut().as_mut() {
+            let mut digest = 0xcbf2_9ce4_8422_2325u64;
+            let mut sorted = true;
+            let mut last = None;
+            for index in indexes {
+                digest = (digest ^ index as u64).wrapping_mul(0x0000_0100_0000_01b3);
+                if let Some(last) = last {
+                    if last > index {
+                        sorted = false;
+                    }
+                }
+                last = Some(index);
+            }
+            v.push((digest, sorted));
+        }
+    });
+}
